@@ -325,7 +325,10 @@ func indep(c *Ctx, p *core.Prog, nt *types.Named, name, pos string, s *efx.Summa
 			}
 			n++
 			if why := policyReason(ft); why != "" {
-				continue
+				// byte slices are immutable by policy only as the DST tag field of a BLS12-381 point
+				if core.Short(types.TypeString(ft, nil)) != "[]byte" || strings.HasSuffix(strings.TrimSuffix(string(tgt), "…"), ".dst") {
+					continue
+				}
 			}
 			bad = append(bad, fmt.Sprintf("%s may hold a reference into %s (type %v)", tgt, src, ft))
 		}
@@ -451,6 +454,7 @@ func roTargetList(c *Ctx, p *core.Prog) []roTarget {
 		"(*sign/tbls.scheme).Recover", "(*sign/tbls.scheme).Sign",
 		"(*sign/bdn.Scheme).Verify", "(*sign/bdn.Scheme).AggregateSignatures", "(*sign/bdn.Scheme).AggregatePublicKeys", "(*sign/bdn.Scheme).Sign",
 		"sign/cosi.Verify", "sign/anon.Verify", "sign/anon.Sign", "sign/dss.Verify", "(*proof/dleq.Proof).Verify", "proof/dleq.NewDLEQProof",
+		"proof/dleq.NewDLEQProofBatch",
 		"share/pvss.VerifyEncShare", "share/pvss.VerifyEncShareBatch", "share/pvss.DecShare", "share/pvss.DecShareBatch",
 		"share/pvss.VerifyDecShare", "share/pvss.VerifyDecShareBatch", "share/pvss.RecoverSecret", "share/pvss.EncShares",
 		"encrypt/ecies.Encrypt", "encrypt/ecies.Decrypt", "encrypt/ibe.EncryptCCAonG1", "encrypt/ibe.DecryptCCAonG1",
